@@ -74,8 +74,15 @@ def make_doc(seed: int) -> tuple[dict, dict]:
             toggles[t] = True
     g = docgen.DocGen(r, toggles=toggles, size=r.choice(["small", "medium", "medium"]), profile="schemas")
     g.ref_weight = 8.0
+    if r.random() < 0.5:
+        g.ct_overrides = dict(CT_OVERRIDES)
     doc = g.document()
-    return doc, {"toggles": toggles, "version": g.version}
+    return doc, {"toggles": toggles, "version": g.version, "ct_overrides": getattr(g, "ct_overrides", None)}
+
+
+CT_OVERRIDES = {"application/x-sim-archive": "application/octet-stream", "application/x-sim-doc": "application/json"}
+# the same custom media types mapped differently: used for the generations that form a warm cell's HISTORY
+CT_OVERRIDES_ALT = {"application/x-sim-archive": "application/json", "application/x-sim-doc": "text/plain"}
 
 
 def refs_in(x: Any) -> list[str]:
@@ -160,7 +167,9 @@ def build_cells(seed: int, doc: dict, hashseeds: list[int], with_hooks: bool, ot
     for i in range(r.choice([1, 1, 2])):
         h = r.choice([hashseeds[0], *others])
         hist = r.choice([["self"], ["other0"], ["other0", "self"], ["other1", "other0"], ["self", "self"]])
-        cells.append({"id": f"warm{i}", "kind": "warm", "h": h, **skew(), "history": hist, "hooks": "off", "perm": None})
+        hist_config = r.choice([None, {"content_type_overrides": CT_OVERRIDES_ALT}, {"content_type_overrides": CT_OVERRIDES_ALT, "literal_enums": True},
+                                {"field_prefix": "attr_", "use_path_prefixes_for_title_model_names": False}])
+        cells.append({"id": f"warm{i}", "kind": "warm", "h": h, **skew(), "history": hist, "hooks": "off", "perm": None, "hist_config": hist_config})
     for i, p in enumerate(make_perms(doc, r, r.randint(2, 6))):
         cells.append({"id": f"perm{i}", "kind": "perm", "h": r.choice([hashseeds[0], *others]), "tz": "UTC", "umask": 0o022, "cwd": "w",
                       "history": [], "hooks": "off", "perm": p})
@@ -199,15 +208,22 @@ def gen_cell(args: dict, sandbox: str) -> dict:
     seq = list(cell.get("history") or []) + ["self"]
     res = None
     out = None
+    hist_cfgpath = cfgpath
+    if cell.get("hist_config") is not None:
+        hc = dict(cfg)
+        hc.update(cell["hist_config"])
+        hist_cfgpath = genrun.write_config(sandbox, hc, name="config_history.json")
     for n, which in enumerate(seq):
         d = docs[which]
-        if n == len(seq) - 1:
+        last = n == len(seq) - 1
+        if last:
             d = apply_perm(d, cell.get("perm"))
         dp = os.path.join(sandbox, f"doc{n}.json")
         with open(dp, "w") as f:
             json.dump(d, f)
         out = os.path.join(sandbox, f"out{n}")
-        res = genrun.run_cli(["generate", "--path", dp, "--config", cfgpath, "--meta", meta, "--output-path", out])
+        # earlier generations of a warm cell are only HISTORY of the process (possibly under another configuration)
+        res = genrun.run_cli(["generate", "--path", dp, "--config", cfgpath if last else hist_cfgpath, "--meta", meta, "--output-path", out])
     assert res is not None and out is not None
     tree = genrun.read_tree(out) if os.path.isdir(out) else {}
     files = {k: hashlib.sha256(v).hexdigest() for k, v in tree.items()}
@@ -367,12 +383,14 @@ def coordinate(drv, pool, plan_: dict, deadline: float) -> None:
         ctx = []
         for _ in range(plan_["batch"]):
             ds = rng.derive(seed, PROP, i)
-            doc, _meta = make_doc(ds)
+            doc, dmeta = make_doc(ds)
             others = [make_doc(rng.derive(ds, "other", k))[0] for k in range(2)]
             docs = {"self": doc, "other0": others[0], "other1": others[1]}
             r = rng.stream(ds, "args")
             meta = r.choice(["poetry", "pdm", "setup", "none"])
             config = {"literal_enums": r.random() < 0.2, "generate_all_tags": r.random() < 0.2, "docstrings_on_attributes": r.random() < 0.2}
+            if dmeta.get("ct_overrides"):
+                config["content_type_overrides"] = dmeta["ct_overrides"]
             with_hooks = (i % plan_["hooks_every"]) == 0
             cells = build_cells(ds, doc, hashseeds, with_hooks, others, penvs)
             ctx.append((ds, doc, cells, docs, meta, config, len(jobs)))
@@ -519,10 +537,15 @@ def shrink_candidates(spec: dict) -> list[dict]:
         s = copy.deepcopy(spec)
         s["meta"] = "none"
         out.append(s)
-    if any((spec.get("config") or {}).values()):
+    if any(v is True for v in (spec.get("config") or {}).values()):
         s = copy.deepcopy(spec)
-        s["config"] = {}
+        s["config"] = {k: v for k, v in spec["config"].items() if v is not True}
         out.append(s)
+    if c1.get("hist_config") and len(c1["hist_config"]) > 1:
+        for k in list(c1["hist_config"]):
+            s = copy.deepcopy(spec)
+            del s["cells"][1]["hist_config"][k]
+            out.append(s)
     protect = lambda p: p in (("info",), ("info", "title"), ("info", "version"), ("openapi",), ("paths",))  # noqa: E731
     for d in driver.tree_candidates(spec["docs"]["self"], limit=160, protect=protect):
         s = copy.deepcopy(spec)
